@@ -42,6 +42,7 @@ func runC15(c *Ctx) {
 	c18Flate(c)
 	// the handshakes guard the size assertions of the accept computation
 	httpUpgraderRules(c, "C15")
+	httpGetHeaderRules(c, "C15")
 	serverUpgraderRules(c, "C15")
 	// other folds of functions with reviewed sites
 	c02Cipher(c)
